@@ -191,7 +191,7 @@ func c01send(c *h.Ctx, cs *h.Case) {
 
 func c01sendGen(c *h.Ctx, yield func(*h.Case)) {
 	r := c.Rng
-	for n := 0; n < c.Pick(25, 400); n++ {
+	for n := 0; n < c01pick(c, 25, 400, 60); n++ {
 		k := 2 + r.Intn(7)
 		par := []string{"-"}
 		for i := 1; i < k; i++ {
